@@ -13,7 +13,7 @@ from ..paths import enumerate_paths, no_raise
 from ..replay import Replay
 from ..symx import Sym, Lin, entails_ge, entails_eq
 from .c01 import validator_paths, data_param, byte_t
-from .proto import proto_classes, method, protocol_paths, tags, callback_is, loop_callbacks
+from .proto import only_reached_from, proto_classes, method, protocol_paths, tags, callback_is, loop_callbacks
 
 PID = "C07"
 LEVEL = "other"
@@ -62,7 +62,11 @@ def r2(ctx, rep, ci):
     for cb in cbs:
         njoin = 0
         seen = set()
+        from ..replay import Replay
+        from ..symx import Lin, entails_eq
+        dparam = cb.params[1]
         for p in protocol_paths(ctx, cb):
+            rp = None
             for i, ev in enumerate(p.events):
                 if ev.kind != "stmt" or not isinstance(ev.node, ast.Assign):
                     continue
@@ -71,30 +75,29 @@ def r2(ctx, rep, ci):
                 if not uses_partial:
                     continue
                 njoin += 1
-                # shape: data = self._partial_data + data
+                if rp is None:
+                    rp = Replay(prog, cb, p)
+                sym = rp.sym_at(i)
+                # value: <stored fragment> + <the bytes just received>, in this order (symbolic values, so the join may sit in a helper)
                 tgt = ev.node.targets[0]
-                ok_shape = isinstance(tgt, ast.Name) and isinstance(v, ast.BinOp) and isinstance(v.op, ast.Add) \
-                    and norm(v.left) == "self._partial_data" and isinstance(v.right, ast.Name) and v.right.id == tgt.id
-                guard = False
-                for e2 in p.events[:i]:
-                    if e2.kind == "test" and e2.data is True and isinstance(e2.node, ast.Compare) and len(e2.node.ops) == 1 \
-                            and isinstance(e2.node.ops[0], ast.Eq):
-                        sides = {norm(e2.node.left), norm(e2.node.comparators[0])}
-                        if ok_shape and sides == {"self._partial_missing", "len(%s)" % tgt.id}:
-                            guard = True
+                received = Lin.of_term(("var", dparam))
+                pd = sym.lin(ast.parse("self._partial_data", mode="eval").body)
+                ok_shape = isinstance(v, ast.BinOp) and isinstance(v.op, ast.Add) and sym.lin(v.left) == pd and sym.lin(v.right) == received
+                joined = sym.lin(v)
+                missing = sym.lin(ast.parse("self._partial_missing", mode="eval").body)
+                guard = ok_shape and entails_eq(rp.facts_before(i), missing - Lin.of_term(("len", ("var", dparam))))
                 cleared = any(e3.kind == "stmt" and "store:_partial_data=None" in tags(e3) for e3 in p.events[i + 1:])
                 validated = False
                 if ok_shape:
-                    for e3 in p.events[i + 1:]:
+                    for k in range(i + 1, len(p.events)):
+                        e3 = p.events[k]
                         if e3.kind in ("call", "raise") and isinstance(e3.node, ast.Call) and (call_chain(e3.node) or ("",))[-1] == "validator" \
-                                and len(e3.node.args) == 1 and norm(e3.node.args[0]) == tgt.id:
-                            validated = True
-                            break
-                        if e3.kind == "stmt" and tgt.id in name_stores(e3.node):
+                                and len(e3.node.args) == 1:
+                            validated = rp.sym_at(k).lin(e3.node.args[0]) == joined
                             break
                 ok = ok_shape and guard and cleared and validated
                 key = "join:%s:%s" % (cb.short, norm(ev.node))
-                why = "unexpected shape" if not ok_shape else ("not guarded by '_partial_missing == len(%s)'" % tgt.id if not guard else (
+                why = "unexpected shape" if not ok_shape else ("not guarded by '_partial_missing == len(%s)'" % dparam if not guard else (
                     "buffer not cleared afterwards" if not cleared else "joined bytes are not passed to the validator"))
                 if ok and key in seen:
                     continue
@@ -103,10 +106,11 @@ def r2(ctx, rep, ci):
                           bad="%s: '%s' %s [path %s]" % (cb.short, norm(ev.node), why, p.describe(8)))
         if njoin == 0:
             raise AnalysisError("%s never joins a fragment" % cb.short)
-    # the fragment fields are read only in the receive callbacks
+    # the fragment fields are read only in the receive callbacks (of either transport: a shared helper serves both)
+    all_cbs = [f for f in loop_callbacks(ctx) if f.name in ("datagram_received", "data_received")]
     for c in [x for x in prog.mro(ci) if hasattr(x, "methods")]:
         for m in c.methods.values():
-            if m in cbs:
+            if only_reached_from(ctx, m, all_cbs):
                 continue
             reads = [n for n in ast.walk(m.node) if isinstance(n, ast.Attribute) and n.attr in ("_partial_data", "_partial_missing") and isinstance(n.ctx, ast.Load)]
             rep.check(not reads, "C07.R2", "reader:%s.%s" % (ci.name, m.name), m.loc(), "%s does not read the fragment buffer" % m.short,
